@@ -38,6 +38,20 @@ def _load_known_with_c24():
 if getattr(core.load_known, '__name__', '') != '_load_known_with_c24':
     core.load_known = _load_known_with_c24
 
+# OPEN statements naming the other file S.DAT that must be refused: [statement, model op]; O/A/I need #1 in use
+REFUSED_OPEN = {
+    'O': ['OPEN "S.DAT" FOR OUTPUT AS 1', 'OpOpenO'], 'A': ['OPEN "S.DAT" FOR APPEND AS 1', 'OpOpenA'],
+    'I': ['OPEN "S.DAT" FOR INPUT AS 1', 'OpOpenI'],
+    'Q': ['OPEN "Q",#1,"S.DAT"', '(OpRefused RModeLetter)'],
+    'L': ['OPEN "S.DAT" FOR OUTPUT AS 1 LEN=0', '(OpRefused RRecLen)'],
+    'W': ['OPEN "S.DAT" FOR APPEND ACCESS WRITE AS 1', '(OpRefused RAppendWrite)'],
+    'R': ['OPEN "S.DAT" FOR OUTPUT ACCESS READ AS 1', '(OpRefused RAccess)'],
+    '0': ['OPEN "S.DAT" FOR OUTPUT AS 0', '(OpRefused RNumZero)'],
+    '9': ['OPEN "S.DAT" FOR APPEND AS 9', '(OpRefused RNumBig)'],
+    '256': ['OPEN "S.DAT" FOR OUTPUT AS 256', '(OpRefused RNumRange)'],
+}
+ANYTIME_REFUSALS = ['Q', 'L', 'W', 'R', '0', '9', '256']
+
 SPECIAL = [0, 10, 13, 26, 32, 34, 44, 9, 255, 48, 49, 45, 46, 69]
 NUM_LITS = {
     '%': ['0', '1', '-1', '32767', '-32768', '255', '-256', '10', '12345'],
@@ -134,6 +148,9 @@ class C24(core.Check):
             # seed C24f: #1 open on T.DAT, OPEN "S.DAT" FOR OUTPUT / APPEND AS #1 is refused and must not touch S.DAT
             {'k': 'any', 'soft': False, 'ops': [['RAW2', [34, 97, 34, 13, 10, 26]], ['O'], ['W', [['s', [98]]]], ['XO', 'O'],
                                               ['C'], ['I'], ['XO', 'A'], ['IN', '$'], ['XO', 'I'], ['C'], ['DISK'], ['DISK2']]},
+            {'k': 'any', 'soft': True, 'ops': [['RAW2', [34, 97, 34, 13, 10, 26]]] + [['XO', x] for x in ANYTIME_REFUSALS] +
+                                             [['O']] + [['XO', x] for x in ANYTIME_REFUSALS] + [['P', [97]], ['C'], ['I']] +
+                                             [['XO', x] for x in ANYTIME_REFUSALS] + [['LI'], ['C'], ['DISK'], ['DISK2']]},
             # outside the class: quotes, NUL, 1A, LF (default mode), leading CR LF (soft mode)
             self.mk_any(False, [['W', [['s', [97, 34, 98]], ['s', [0, 97, 0]], ['s', [97, 26, 98]], ['s', [97, 10, 98]]]]],
                         ['IN', '$'], 6),
@@ -580,8 +597,11 @@ class C24(core.Check):
             return c
         body = [rng.choice([97, 98, 13, 10, 34, 44, 49]) for _ in range(rng.choice([1, 5, 20, 130]))]
         other = body + rng.choice([[26], [26], [], [13, 10, 26]])
-        for i in sorted(set(rng.choice(opens) for _ in range(rng.choice([1, 1, 2]))), reverse=True):
-            ops.insert(i + 1, ['XO', rng.choice('OOAAI')])
+        ins = [(i, rng.choice('OOAAI')) for i in set(rng.choice(opens) for _ in range(rng.choice([1, 1, 2])))]
+        # refusals for bad mode letter / LEN / ACCESS / file number: in any state, open or closed
+        ins += [(rng.randrange(-1, len(ops)), rng.choice(ANYTIME_REFUSALS)) for _ in range(rng.choice([0, 1, 2]))]
+        for i, kind in sorted(ins, key=lambda x: -x[0]):
+            ops.insert(i + 1, ['XO', kind])
         return dict(c, ops=[['RAW2', other]] + ops + [['DISK2']])
 
     def g_any(self, rng, soft):
@@ -837,7 +857,7 @@ class C24(core.Check):
                             rec['disk2'] = list(bytearray(open(path2, 'rb').read())) if os.path.exists(path2) else None
                         elif k == 'XO':
                             # an OPEN that must be refused: file number 1 is in use; it names another file
-                            s.execute('OPEN "S.DAT" FOR %s AS 1' % {'O': 'OUTPUT', 'A': 'APPEND', 'I': 'INPUT'}[o[1]])
+                            s.execute(REFUSED_OPEN[o[1]][0])
                             res = status()
                         elif k == 'DISK':
                             if mode is not None:
@@ -904,7 +924,7 @@ class C24(core.Check):
         if k in ('O', 'A', 'I'):
             return 'OpOpen' + k
         if k == 'XO':
-            return 'OpOpen' + o[1]
+            return REFUSED_OPEN[o[1]][1]
         if k == 'C':
             return 'OpClose'
         if k == 'W':
